@@ -46,7 +46,7 @@ func TestC01(t *testing.T) {
 				cls := "unreadable"
 				if ts, ok := ref.TaintTime(n); ok {
 					age := gr.Start.Sub(ts)
-					soft, hard := o.SoftDeleteGracePeriodDuration(), o.HardDeleteGracePeriodDuration()
+					soft, hard := world.Dur(o.SoftDeleteGracePeriod), world.Dur(o.HardDeleteGracePeriod)
 					switch {
 					case age < 0:
 						cls = "future"
@@ -90,7 +90,7 @@ func TestC02(t *testing.T) {
 			if !gr.Processed || gr.Dry || gr.LockT0.IsZero() || rec.Restarted {
 				continue
 			}
-			cd := w.Cfg.Groups[gr.G].Opts.ScaleUpCoolDownPeriodDuration()
+			cd := world.Dur(w.Cfg.Groups[gr.G].Opts.ScaleUpCoolDownPeriod)
 			off := gr.Start.Sub(gr.LockT0)
 			cls := ""
 			switch {
@@ -329,10 +329,10 @@ func temptation(w *world.World, rec *world.ScanRecord, gr *world.GroupRec, n *v1
 	}
 	if ts, ok := ref.TaintTime(n); ok {
 		age := gr.Start.Sub(ts)
-		if age > o.HardDeleteGracePeriodDuration() {
+		if age > world.Dur(o.HardDeleteGracePeriod) {
 			return "hard-expired"
 		}
-		if age > o.SoftDeleteGracePeriodDuration() && len(gr.GV.PodsOn(n.Name)) == 0 {
+		if age > world.Dur(o.SoftDeleteGracePeriod) && len(gr.GV.PodsOn(n.Name)) == 0 {
 			return "soft-expired-empty"
 		}
 		return "tainted"
